@@ -620,7 +620,7 @@ def thr_reg_loops():
         pos = z3.Function("thr_hook_position", z3.StringSort(), z3.IntSort())
         s1.assume(z3.ForAll([k], z3.Implies(z3.Select(dom, k), z3.And(0 <= pos(k), pos(k) < n, inst(pos(k)) == z3.Select(val, k)))))
     return {0: LoopSpec(inv, on_exit=on_exit, modifies=lambda st, ctx: ["len", "mem", "el:Ref", "nodup", "heapok"] + [("f:EventHook." + f, []) for f in ("event", "hook_type", "is_before", "time", "specific_class", "specific_instance")],
-                        header="self.target_markets.values()", name="targets", frame_since_entry=True)}
+                        header="self.target_markets.values()", name="targets", frame_since_entry=False)}
 
 
 THR_REGISTRATION = FSpec("TradingHaltRule.hook_registration", post=thr_reg_post, props=("C16",), fresh_result=True, result=("list", ("ref", "EventHook")),
